@@ -40,6 +40,8 @@ class PrimMixin:
             return len(v)
         if isinstance(v, SpecArr):
             return v.n
+        if kind_of(v) == "str" and isinstance(v, z3.ExprRef):
+            return z3.Length(v)
         if isinstance(v, Ref):
             h = st.get(v)
             if isinstance(h, HArr):
@@ -673,6 +675,16 @@ class PrimMixin:
         raise Unsupported("deepcopy of %s" % kind_of(v), node)
 
     p_copy_deepcopy = p_builtin_copy_deepcopy
+
+    def p_builtin_copy_copy(self, args, kw, st, fr, node):
+        v = args[0]
+        if isinstance(v, tuple) or kind_of(v) in ("int", "real", "bool", "str", "none") or isinstance(v, Opaque):
+            return v          # immutable values: a copy is indistinguishable
+        if isinstance(v, Ref) and isinstance(st.get(v), HList):
+            return st.alloc(HList(list(st.get(v).items)))
+        raise Unsupported("copy.copy of %s" % kind_of(v), node)
+
+    p_copy_copy = p_builtin_copy_copy
 
     def p_builtin_shares_buffer(self, args, kw, st, fr, node):
         a, b = args
@@ -1492,6 +1504,26 @@ class PrimMixin:
         hi = kw.get("high", args[1] if len(args) > 1 else 1.0)
         n = kw.get("size", args[2] if len(args) > 2 else None)
         return self._draws(n, lo, hi, False, st, fr, node)
+
+    def p_rng_choice(self, args, kw, st, fr, node):
+        """Generator.choice(imax, size=n, replace=flag): n arbitrary integers of range(imax); pairwise distinct without
+        replacement (numpy raises ValueError when n > imax then)"""
+        imax = args[0]
+        n = kw.get("size", args[1] if len(args) > 1 else None)
+        replace = kw.get("replace", args[2] if len(args) > 2 else True)
+        if n is None or kind_of(imax) != "int":
+            raise Unsupported("rng.choice in this form", node)
+        self.use("random generator parameter: choice(imax, size, replace) returns size arbitrary integers in [0, imax), pairwise "
+                 "distinct when replace is False (every draw is covered)")
+        n_, m_ = to_z3(n, "int"), to_z3(imax, "int")
+        self.oblige(st, n_ >= 0, "safety", "nonneg-size", node, fr)
+        rep = truth(replace) if not isinstance(replace, bool) else z3.BoolVal(replace)
+        self.oblige(st, z3.Or(rep, n_ <= m_), "safety", "no-more-distinct-draws-than-values", node, fr)
+        d = fresh("choice", z3.ArraySort(I, I))
+        k, j = fresh("k", I), fresh("j", I)
+        self.assume(st, z3.ForAll([k], z3.Implies(z3.And(k >= 0, k < n_), z3.And(d[k] >= 0, d[k] < m_))))
+        self.assume(st, z3.Implies(z3.Not(rep), z3.ForAll([k, j], z3.Implies(z3.And(k >= 0, k < j, j < n_), d[k] != d[j]))))
+        return st.alloc(HArr("int", n, d, fresh=True))
 
     def _draws(self, n, lo, hi, strict_hi, st, fr, node):
         self.use("random generator parameter: random()/uniform() return the requested number of arbitrary values in [low, high) / "
